@@ -88,7 +88,7 @@ pub struct Twin {
 pub fn is_randomized(op: Op) -> bool {
     matches!(
         op,
-        Op::KeyNew | Op::KeyNewViaBls | Op::SplitEntropy | Op::Split | Op::PokCommit | Op::ChallengeNew | Op::ChallengeNewViaBls | Op::PokTsGenerate | Op::SignCrypt | Op::TimeLock | Op::EgEncrypt | Op::EgEncryptProof | Op::EgSealRaw | Op::EgEncryptProofBlinder | Op::ScShareOverBase | Op::EnumNew | Op::Exercise
+        Op::KeyNew | Op::KeyNewViaBls | Op::SplitEntropy | Op::Split | Op::SplitFaultyRng | Op::PokCommitNestedAsRef | Op::PokCommit | Op::ChallengeNew | Op::ChallengeNewViaBls | Op::PokTsGenerate | Op::SignCrypt | Op::TimeLock | Op::EgEncrypt | Op::EgEncryptProof | Op::EgSealRaw | Op::EgEncryptProofBlinder | Op::ScShareOverBase | Op::EnumNew | Op::Exercise
     )
 }
 
@@ -135,6 +135,8 @@ pub struct Rec {
     pub alt_mode: u8,
     /// the last deterministic call each party got a good answer to (per flavour and node): replayed after a refused call
     pub last_good: std::collections::BTreeMap<(String, usize), Traced>,
+    /// the last small aggregate verification of this run (group, arguments): material for `before_call`
+    pub last_agg: Option<(Grp, Vec<Vec<u8>>)>,
     /// guard: the follow-up calls below are not themselves followed up
     pub in_aftercare: bool,
     /// seed of the follow-up draws (0 = no follow-ups)
@@ -165,6 +167,7 @@ impl Rec {
             alt_routes: 0,
             alt_mode: 0,
             last_good: std::collections::BTreeMap::new(),
+            last_agg: None,
             in_aftercare: false,
             aftercare: 0,
         }
@@ -236,6 +239,7 @@ impl Rec {
         } else {
             0
         };
+        self.before_call(lib, g, op, args);
         let (clock_at_call, tick_at_call) = (crate::seams::clock_ns(), crate::seams::work_tick_ns());
         let out = crate::exec::call(lib, g, op, args, 0, route);
         if let Some(t) = self.trace.as_mut() {
@@ -301,6 +305,45 @@ impl Rec {
         }
         self.after_call(lib, g, op, args, &out, route);
         out
+    }
+
+    /// A fault on the CALLER's side of an earlier call: before one verifying call in eight, this party makes an aggregate
+    /// verification in which its own code (the iterator that feeds the trait-level verifier, or the message type's `as_ref()`
+    /// at struct level) panics after k entries were consumed; it catches the unwind and carries on with the call it was
+    /// about to make, whose answer the scenario's oracle then judges as always. The entries are those of the aggregate about
+    /// to be verified, or of the last aggregate this run verified.
+    fn before_call(&mut self, lib: &dyn Lib, g: Grp, op: Op, args: &[&[u8]]) {
+        if self.aftercare == 0 || self.in_aftercare || lib.name() == "pinned" {
+            return;
+        }
+        let verifying = matches!(op, Op::AggVerify | Op::AggVerifyTrait | Op::Verify | Op::VerifyIn | Op::PopVerify | Op::MultiVerify | Op::MultiSigVerifyKeys | Op::SigShareVerify | Op::PkShareVerify | Op::PokVerify | Op::CoreVerify);
+        if !verifying {
+            return;
+        }
+        let small = args.iter().map(|a| a.len()).sum::<usize>() <= (1 << 14);
+        if op == Op::AggVerify && args.len() >= 5 && small {
+            self.last_agg = Some((g, args.iter().map(|a| a.to_vec()).collect()));
+        }
+        let mut z = self.aftercare ^ self.stats.lib_calls.wrapping_mul(0xA24B_AED4_963E_E407);
+        let h = crate::seams::splitmix(&mut z);
+        if h % 8 != 0 {
+            return;
+        }
+        let Some((pg, pa)) = self.last_agg.clone() else { return };
+        let n = (pa.len() - 1) / 2;
+        let k = if (h >> 8) % 4 == 0 { 0 } else { 1 + (h >> 16) % (n as u64 - 1) };
+        let how = ((h >> 12) & 1) as u8;
+        let kb = k.to_le_bytes();
+        let hb = [how];
+        let mut a2: Vec<&[u8]> = vec![&pa[0], &kb, &hb];
+        a2.extend(pa[1..].iter().map(|b| b.as_slice()));
+        self.in_aftercare = true;
+        let o = crate::exec::call(lib, pg, Op::AggVerifyCallerPanics, &a2, 0, 0);
+        self.in_aftercare = false;
+        self.stats.lib_calls += 1;
+        if matches!(&o, Out::Rej(m) if m.contains("caller panicked")) {
+            self.stats.fault("caller-code-unwinds-through-a-library-call");
+        }
     }
 
     /// What a party does after a call, half of the time each, because a REFUSED request must leave nothing behind:
